@@ -176,6 +176,9 @@ std::string opMt(const std::vector<std::string>& w)
                     if ((c + i) % 2 == 0) { m = unreg[(c / 2 + i) % 5]; kind = "echo"; } else { m = "GET"; kind = "p"; }
                 }
                 std::string tag = std::to_string(c) + "-" + std::to_string(i);
+                // every other client opens a new connection for each request: connections are accepted (by the acceptor thread)
+                // while the workers are busy writing on other connections
+                if (c % 2 == 1 && i > 0) { if (fd >= 0) ::close(fd); fd = connectTo(srv.port); buf.clear(); }
                 if (fd < 0) { ++missing; continue; }
                 ++sent;
                 if (!sendAll(fd, std::string(m) + " /" + kind + "/" + tag + " HTTP/1.1\r\nHost: h\r\nConnection: keep-alive\r\n\r\n")) { ++missing; ::close(fd); fd = -1; continue; }
